@@ -6,7 +6,8 @@
 (* sheet i holds the weight 2^(9(i-1)+k), so the value of a SUM reveals    *)
 (* exactly which cells were read.  Probe formulas live in column E.        *)
 (*   ref     every target cell x 4 $ spellings x qualification, from a     *)
-(*           probe on every sheet                                          *)
+(*           probe on every sheet; the same (stored / never stored) cell   *)
+(*           mentioned twice in one formula                                *)
 (*   range   every rectangle x SUM / COUNTA x sheets, dense and with every *)
 (*           sparse pattern of a 2x2 sub-block                             *)
 (*   chain   formulas that cross sheets repeatedly with unqualified refs   *)
@@ -87,6 +88,16 @@ InitCase ==
      /\ \E absent \in SUBSET SubBlock, k \in SubBlock, p \in {1, 2} :
           /\ k \in absent
           /\ case = Mk("blank-ref", WithProbe(Restrict(DenseCells, absent), p, Ref(IF p = 1 THEN "" ELSE "S1", k[2], k[3], FALSE, FALSE)), NoNames, Probe(p))
+  \/ /\ "ref" \in Families          \* the SAME cell (stored, or never stored) mentioned twice in one formula, in two spellings
+     /\ \E k \in SubBlock, gone \in BOOLEAN, p \in {1, 2}, v1 \in {1, 4}, v2 \in {1, 4}, form \in 1..3 :
+          LET cells == IF gone THEN Restrict(DenseCells, {k}) ELSE DenseCells
+              r1 == RefV(IF p = 1 THEN "" ELSE "S1", k[2], k[3], v1)
+              r2 == RefV("S1", k[2], k[3], v2)
+              zero == NumLit(<<48>>)
+              ast == CASE form = 1 -> Bin("+", r1, r2)
+                       [] form = 2 -> CallN("IF", <<Bin(">", r1, zero), r2, Bin("-", zero, r1)>>)
+                       [] form = 3 -> CallN("SUM", <<r1, Ref("S1", 3, 3, FALSE, FALSE), r2>>)
+          IN case = Mk("repeat", WithProbe(cells, p, ast), NoNames, Probe(p))
   \/ /\ "chain" \in Families
      /\ \E perm \in Perms, pr \in {<<1, 5, 1>>, <<2, 5, 1>>, <<3, 5, 1>>, <<1, 5, 2>>, <<2, 5, 3>>} :
           case = Mk("chain", ChainCells(perm), NoNames, <<perm[pr[1]], pr[2], pr[3]>>)
